@@ -147,7 +147,7 @@ def staleLatest (recv : List Block) (k : Nat) (evs : List Ev) : Bool :=
 /-! ### the property -/
 
 def spec (p : Params) (o : Out) : Bool :=
-  chainOk p o.chain o.times &&
+  chainOk p o.chain o.times && decide (o.chainAfter = o.chain) &&
   (o.subs.zip (List.range o.subs.length)).all (fun (s, i) => recvOk (dueTo p o i) s.recv) &&
   (o.subs.zip (List.range o.subs.length)).all (fun (s, i) => recvOk (dueTo p o i) s.slow) &&
   (o.subs.zip (List.range o.subs.length)).all (fun (s, i) => histsOk p (dueTo p o i) s.hists) &&
@@ -158,6 +158,7 @@ def spec (p : Params) (o : Out) : Bool :=
 def explain (p : Params) (o : Out) : String :=
   let subs := o.subs.zip (List.range o.subs.length)
   if !chainOk p o.chain o.times then "chain: block numbers are not genesis, genesis+1, … each once"
+  else if o.chainAfter != o.chain then "chain: the content of a block changed after it was broadcast"
   else if subs.any (fun (s, i) => s.recv.length != (dueTo p o i).length || !decide ((s.recv.map (·.number)).Nodup)) then
     "delivery: a subscriber did not receive every block broadcast while it was attached exactly once"
   else if subs.any (fun (s, i) => !s.recv.all ((dueTo p o i).contains ·)) then
@@ -185,6 +186,52 @@ def explain (p : Params) (o : Out) : String :=
     "confirmations: not (highest block received) minus (transmit block), or negative"
   else if o.subs.any (fun s => !subEventsOk p o.chain s) then
     "events: answer is not exactly the transmits of the newest received transmit blocks within the look-back, each once"
+  else "ok"
+
+/-! ### un-timed `Transmit` ∥ `Load` -/
+
+structure StressParams where
+  nodes  : Nat
+  rounds : Nat
+  nrep   : Nat      -- round `r` carries report `r % nrep`
+deriving Repr
+
+/-- no element twice (`Props.C19.nodupB_iff`: this is `List.Nodup`; evaluated in quadratic time) -/
+def nodupB {α} [BEq α] : List α → Bool
+  | [] => true
+  | x :: xs => !xs.contains x && nodupB xs
+
+def ascending : List Nat → Bool
+  | [] => true
+  | [_] => true
+  | a :: b :: rest => decide (a < b) && ascending (b :: rest)
+
+/-- every round's report is accepted from exactly one node; blocks were built after the last call
+    returned, so every accepted call is in exactly one block, `Results()` lists exactly those with
+    their block numbers, and nothing else is on chain -/
+def stressOk (p : StressParams) (o : StressOut) : Bool :=
+  let onChain := o.blocks.flatMap (·.2)
+  decide (o.accepted.length = p.rounds) &&
+  o.accepted.all (fun fl => decide (fl.length = p.nodes) && fl.count true == 1) &&
+  nodupB (onChain.map keyOf) &&
+  (o.accepted.zipIdx.all fun (fl, r) => fl.zipIdx.all fun (ok, k) =>
+    !ok || onChain.contains { sender := senderName k, rep := r % p.nrep, round := r }) &&
+  onChain.all (fun t => t.rep == t.round % p.nrep &&
+    (o.accepted.getD t.round []).zipIdx.any fun (ok, k) => ok && senderName k == t.sender) &&
+  nodupB (o.results.map fun r => keyOf r.t) && decide (o.results.length = onChain.length) &&
+  o.blocks.all (fun (n, ts) => ts.all fun t => o.results.contains { t := t, block := some n }) &&
+  ascending (o.blocks.map (·.1))
+
+def stressExplain (p : StressParams) (o : StressOut) : String :=
+  let onChain := o.blocks.flatMap (·.2)
+  if o.accepted.length != p.rounds || o.accepted.any (fun fl => fl.length != p.nodes) then "stress: malformed observation"
+  else if o.accepted.any (fun fl => fl.count true != 1) then
+    "transmit: a (report, round) was not accepted from exactly one submitter"
+  else if !nodupB (onChain.map keyOf) then "transmit: a (report, round) is recorded on chain more than once"
+  else if (o.accepted.zipIdx.any fun (fl, r) => fl.zipIdx.any fun (ok, k) =>
+      ok && !onChain.contains { sender := senderName k, rep := r % p.nrep, round := r }) then
+    "transmit: an accepted submission is in no block although blocks were built after it returned"
+  else if !stressOk p o then "transmit: Results() and the chain do not record each (report, round) exactly once"
   else "ok"
 
 end AutoVerif.C19
